@@ -1,5 +1,7 @@
 package dcc
 
+import "unicode"
+
 // C01 — MS-Cache v1: DCC = MD4(NT || UTF-16LE(lower(user))), raw, hex and hashcat line "hex:user".
 
 func lowerASCII(s string) string {
@@ -45,5 +47,26 @@ func H_C01_dcc_password() {
 	nt := refMD4(refUTF16LE(cps))
 	want := refMD4(append(append([]byte{}, nt[:]...), refUTF16LE([]rune("admin"))...))
 	vCheck(DCCHashFromPassword(pw, user) == want, "dcc/from-password")
+	vCover("end")
+}
+
+// Non-ASCII user names (concrete samples: case mapping of symbolic text is modelled for ASCII only): the salt is
+// UTF-16LE(lower(user)) with the Unicode simple lower-case mapping; the NT hash stays symbolic.
+var c01names = []string{"Administratör", "JOSÉ", "Ζωή", "用户", "user😀", "ǅon"}
+
+func c01lower16(s string) []byte {
+	var cps []rune
+	for _, r := range s {
+		cps = append(cps, unicode.ToLower(r))
+	}
+	return refUTF16LE(cps)
+}
+
+func H_C01_dcc_unicode_names() {
+	var ntHash [16]byte
+	copy(ntHash[:], vBytes("nt", 16))
+	user := c01names[vParam("name")]
+	want := refMD4(append(append([]byte{}, ntHash[:]...), c01lower16(user)...))
+	vCheck(DCCHashFromNTHash(ntHash, user) == want, "dcc/hash-for-a-non-ASCII-user")
 	vCover("end")
 }
